@@ -224,7 +224,42 @@ def f2(prog, ctx):
         ctx.ok("F2", "%s:%d" % (LRC, d.lineno), "dump writes include then exclude, from the inclusion / exclusion counters")
 
 
+def f3(prog, ctx):
+    """dump() visits every (feature, group) cell of the two counters."""
+    LRC = "src/long_read_counter.py"
+    d = prog.func(LRC, "ProfileFeatureCounter.dump")
+    loops = [l for l in walk_no_nested(d) if isinstance(l, ast.For)]
+    its = [src(l.iter) for l in loops]
+    groups_def = [s_ for s_ in walk_no_nested(d) if isinstance(s_, ast.Assign) and src(s_.targets[0]) == "all_groups"]
+    ok_groups = groups_def and src(groups_def[0].value) == "sorted(self.group_numeric_ids.keys())"
+    if "self.feature_name_dict.keys()" not in its or "all_groups" not in its or not ok_groups:
+        ctx.fail("F3", d, d._qualname, "loops over %s" % its, "dump() does not iterate every feature of feature_name_dict and every group of "
+                 "group_numeric_ids: a (feature, group) cell with only exclusions (or only inclusions) can be skipped, so grouped "
+                 "counts no longer add up to the ungrouped ones")
+    else:
+        ctx.ok("F3", "%s:%d" % (LRC, d.lineno), "dump iterates all features x all groups")
+    wr = [c for c in walk_no_nested(d) if isinstance(c, ast.Call) and src(c.func) == "f.write" and "%d" in src(c)]
+    if wr:
+        st = wr[0]
+        while not isinstance(st, ast.stmt):
+            st = st._parent
+        facts = [src(t) for t, p in flow.guard_facts(st, stop=d) if p]
+        if facts != ["incl_count > 0 or excl_count > 0"]:
+            ctx.fail("F3", wr[0], d._qualname, "if %s" % facts, "a row is written under another condition than 'include or exclude count positive'")
+        else:
+            ctx.ok("F3", "%s:%d" % (LRC, wr[0].lineno), "row written iff include or exclude count is positive")
+    # every feature seen in either counter is registered in feature_name_dict
+    a = prog.func(LRC, "ProfileFeatureCounter.add_read_info_from_profile")
+    regs = [s_ for s_ in walk_no_nested(a) if isinstance(s_, ast.Assign) and "self.feature_name_dict[feature_id]" in src(s_.targets[0])]
+    if len(regs) != 2:
+        ctx.fail("F3", a, a._qualname, "feature_name_dict", "features are not registered for both inclusion and exclusion")
+    else:
+        ctx.ok("F3", "%s:%d" % (LRC, regs[0].lineno), "feature registered on inclusion and on exclusion")
+
+
 def run(prog, ctx):
+    ctx.rule("F3", "ProfileFeatureCounter.dump iterates all registered features x all groups and writes a row iff one count is positive; "
+                   "features are registered on both inclusion and exclusion")
     ctx.rule("F1", "feature-kind tags (exon / intron / split_exon, read from identifiers) agree at every hand-over of a profile or "
                    "feature table: constructor wiring, combined profile fields, assignment fields, property maps, counters, files; "
                    "the feature table has exactly one entry per feature in list order")
@@ -232,6 +267,7 @@ def run(prog, ctx):
                    "the feature id taken at the same index; dump writes the two in header order")
     n = f1(prog, ctx)
     f2(prog, ctx)
+    f3(prog, ctx)
     ctx.floor("F1", "hand-over sites", n, 18)
     ctx.assume("that profile values themselves are right (set-theoretic, C19-like) is not decided")
     ctx.assume("identifiers name the feature kind they hold (exon/intron/split_exon stems) - the repository's own convention")
